@@ -259,6 +259,42 @@ theorem scanLoop_sim {c : Cfg} (hv : c.Valid) (sc : Scanner σ) (ht : c.typ = .t
           simpa using hget
         · simp
 
+theorem cursorReadRune_ne_np (c : Cfg) (cu : Cursor) : (cursorReadRune c cu).1 ≠ .err .noProgress := by
+  unfold cursorReadRune
+  generalize pastAction c.action cu = pa
+  obtain ⟨e, cu1⟩ := pa
+  cases e with
+  | some e => simp
+  | none =>
+    simp only [cursorRuneBody]
+    split
+    · simp
+    · split <;> simp
+
+theorem cursorReadByte_ne_np (c : Cfg) (cu : Cursor) : (cursorReadByte c cu).1 ≠ .err .noProgress := by
+  unfold cursorReadByte
+  generalize pastAction c.action cu = pa
+  obtain ⟨e, cu1⟩ := pa
+  cases e with
+  | some e => simp
+  | none =>
+    simp only [cursorByteBody]
+    split
+    · simp
+    · split <;> simp
+
+theorem charRes_ne_other (r : Rd (Nat × Nat)) (h : r ≠ .err .noProgress) : charRes r ≠ .err .other := by
+  cases r with
+  | ok d => simp only [charRes]; split <;> simp
+  | eof => simp [charRes]
+  | err e => cases e <;> simp_all [charRes, charErr]
+
+theorem byteRes_ne_other (r : Rd Nat) (h : r ≠ .err .noProgress) : byteRes r ≠ .err .other := by
+  cases r with
+  | ok d => simp [byteRes]
+  | eof => simp [byteRes]
+  | err e => cases e <;> simp_all [byteRes, byteErr]
+
 /-- what the specification's read_term does once the eof action and the stream type are dealt with -/
 def specReadTermBody (c : Cfg) (sc : Scanner σ) (cu : Cursor) : Result × Cursor :=
   match Spec.scan sc (c.src.length + 2) sc.init (c.src.drop cu.idx) 0 with
@@ -270,7 +306,8 @@ def specReadTermBody (c : Cfg) (sc : Scanner σ) (cu : Cursor) : Result × Curso
 theorem readTerm_core {c : Cfg} (hv : c.Valid) (sc : Scanner σ) (ht : c.typ = .text) {s : Stream} {cu : Cursor}
     (h : Sim c s cu) (hpa : pastAction c.action cu = (none, cu)) :
     (stepOp c sc .readTerm s).1 = (specReadTermBody c sc cu).1 ∧
-    Sim c (stepOp c sc .readTerm s).2 (specReadTermBody c sc cu).2 := by
+    Sim c (stepOp c sc .readTerm s).2 (specReadTermBody c sc cu).2 ∧
+    (specReadTermBody c sc cu).1 ≠ .err .other := by
   obtain ⟨i1, i2, i3⟩ := scanLoop_sim hv sc ht (c.src.length + 2) sc.init s cu h hpa (by omega)
   unfold specReadTermBody
   simp only [stepOp]
@@ -287,15 +324,15 @@ theorem readTerm_core {c : Cfg} (hv : c.Valid) (sc : Scanner σ) (ht : c.typ = .
       simp only at r1 r2
       subst r1
       cases ro with
-      | term t => exact ⟨rfl, r2⟩
-      | syntaxErr => exact ⟨rfl, r2⟩
+      | term t => exact ⟨rfl, r2, by simp⟩
+      | syntaxErr => exact ⟨rfl, r2, by simp⟩
     | endOfFile =>
       obtain ⟨r1, r2⟩ := i2 n rfl
       generalize hp : scanLoop c sc (c.src.length + 2) sc.init s = p at *
       obtain ⟨e, s'⟩ := p
       simp only at r1 r2
       subst r1
-      exact ⟨rfl, r2⟩
+      exact ⟨rfl, r2, by simp⟩
 
 theorem scanLoop_err (c : Cfg) (sc : Scanner σ) (fuel : Nat) (st : σ) (s : Stream) (e : RdErr)
     (h : (readRune c s).1 = .err e) :
@@ -322,28 +359,33 @@ theorem scanLoop_reset_eq (c : Cfg) (sc : Scanner σ) (fuel : Nat) (st : σ) (s 
 /-- every goal: its result is acceptable to the specification at the current cursor, and the
     simulation continues at the specification's next cursor -/
 theorem stepOp_sim {c : Cfg} (hv : c.Valid) (sc : Scanner σ) {s : Stream} {cu : Cursor} (h : Sim c s cu) (o : Op) :
-    ∃ cu', Spec.check c.spec sc o cu (stepOp c sc o s).1 = some cu' ∧ Sim c (stepOp c sc o s).2 cu' := by
+    ∃ cu', Spec.check c.spec sc o cu (stepOp c sc o s).1 = some cu' ∧ Sim c (stepOp c sc o s).2 cu' ∧
+      (stepOp c sc o s).1 ≠ .err .other := by
   cases o with
   | getChar =>
     obtain ⟨hr, hg, _⟩ := readRune_sim hv h
-    refine ⟨(cursorReadRune c cu).2.1, ?_, hg⟩
-    simp only [Spec.check, stepOp, spec_readChar, hr, if_true]
+    refine ⟨(cursorReadRune c cu).2.1, ?_, hg, ?_⟩
+    · simp only [Spec.check, stepOp, spec_readChar, hr, if_true]
+    · simp only [stepOp, hr]; exact charRes_ne_other _ (cursorReadRune_ne_np c cu)
   | peekChar =>
     obtain ⟨hr, _, hpk⟩ := readRune_sim hv h
-    refine ⟨(cursorReadRune c cu).2.2, ?_, hpk⟩
-    simp only [Spec.check, stepOp, spec_readChar, hr, if_true]
-    simp
+    refine ⟨(cursorReadRune c cu).2.2, ?_, hpk, ?_⟩
+    · simp only [Spec.check, stepOp, spec_readChar, hr, if_true]
+      simp
+    · simp only [stepOp, hr]; exact charRes_ne_other _ (cursorReadRune_ne_np c cu)
   | getByte =>
     obtain ⟨hr, hg, _⟩ := readByte_sim hv h
-    refine ⟨(cursorReadByte c cu).2.1, ?_, hg⟩
-    simp only [Spec.check, stepOp, spec_readByte, hr, if_true]
+    refine ⟨(cursorReadByte c cu).2.1, ?_, hg, ?_⟩
+    · simp only [Spec.check, stepOp, spec_readByte, hr, if_true]
+    · simp only [stepOp, hr]; exact byteRes_ne_other _ (cursorReadByte_ne_np c cu)
   | peekByte =>
     obtain ⟨hr, _, hpk⟩ := readByte_sim hv h
-    refine ⟨(cursorReadByte c cu).2.2, ?_, hpk⟩
-    simp only [Spec.check, stepOp, spec_readByte, hr, if_true]
-    simp
+    refine ⟨(cursorReadByte c cu).2.2, ?_, hpk, ?_⟩
+    · simp only [Spec.check, stepOp, spec_readByte, hr, if_true]
+      simp
+    · simp only [stepOp, hr]; exact byteRes_ne_other _ (cursorReadByte_ne_np c cu)
   | atEnd =>
-    refine ⟨cu, ?_, h⟩
+    refine ⟨cu, ?_, h, by simp [stepOp]⟩
     simp only [Spec.check, stepOp, Cfg.spec]
     by_cases he : s.endOfStream ≠ .not
     · simp [he, h.end_of he]
@@ -354,10 +396,10 @@ theorem stepOp_sim {c : Cfg} (hv : c.Valid) (sc : Scanner σ) {s : Stream} {cu :
         | true => have := h.past_iff.mpr hd; rw [hnot] at this; exact absurd this (by decide)
       simp [hnot, hnd]
   | propPos =>
-    refine ⟨cu, ?_, h⟩
+    refine ⟨cu, ?_, h, by simp [stepOp]⟩
     simp [Spec.check, stepOp, h.pos_eq]
   | propEos =>
-    refine ⟨cu, ?_, h⟩
+    refine ⟨cu, ?_, h, by simp [stepOp]⟩
     simp only [Spec.check, stepOp]
     have : Spec.eosOk c.spec cu s.endOfStream = true := by
       cases he : s.endOfStream with
@@ -394,24 +436,26 @@ theorem stepOp_sim {c : Cfg} (hv : c.Valid) (sc : Scanner σ) {s : Stream} {cu :
       have hcr : cursorReadRune c cu = (.err .pastEOS, cu, cu) := by unfold cursorReadRune; rw [hpa, hcu]
       rw [hcr] at hr hg hpk
       have hsl := scanLoop_err c sc (c.src.length + 1) sc.init s .pastEOS hr
-      refine ⟨cu1, ?_, ?_⟩
+      refine ⟨cu1, ?_, ?_, ?_⟩
       · simp [stepOp, hsl, termRes, termErr]
       · simp only [stepOp, hsl]; rw [hcu]; exact hpk
+      · simp [stepOp, hsl, termRes, termErr]
     | none =>
       have hcr : cursorReadRune c cu = cursorRuneBody c cu1 := by unfold cursorReadRune; rw [hpa]
       by_cases ht : c.typ ≠ .text
       · have hcb : cursorRuneBody c cu1 = (.err .wrongType, cu1, cu1) := by unfold cursorRuneBody; rw [if_pos ht]
         rw [hcr, hcb] at hr hg hpk
         have hsl := scanLoop_err c sc (c.src.length + 1) sc.init s .wrongType hr
-        refine ⟨cu1, ?_, ?_⟩
+        refine ⟨cu1, ?_, ?_, ?_⟩
         · simp [stepOp, hsl, termRes, termErr, ht]
         · simp only [stepOp, hsl]; exact hpk
+        · simp [stepOp, hsl, termRes, termErr]
       · have ht' : c.typ = .text := by simpa using ht
         simp only [ht, if_false]
         by_cases hcu : cu1 = cu
         · subst hcu
-          obtain ⟨r1, r2⟩ := readTerm_core hv sc ht' h hpa
-          exact ⟨_, by rw [r1]; simp, r2⟩
+          obtain ⟨r1, r2, r3⟩ := readTerm_core hv sc ht' h hpa
+          exact ⟨_, by rw [r1]; simp, r2, by rw [r1]; exact r3⟩
         · -- the eof action reset the stream first
           have hdr : cu.delivered = true ∧ c.action = .reset := by
             unfold pastAction at hpa
@@ -430,12 +474,12 @@ theorem stepOp_sim {c : Cfg} (hv : c.Valid) (sc : Scanner σ) {s : Stream} {cu :
           have hpa' : pastAction c.action cu1 = (none, cu1) := by
             rw [hcu1]; exact pastAction_not_delivered _ _ rfl
           rw [← hcu1] at hsim'
-          obtain ⟨r1, r2⟩ := readTerm_core hv sc ht' hsim' hpa'
+          obtain ⟨r1, r2, r3⟩ := readTerm_core hv sc ht' hsim' hpa'
           have hstep : stepOp c sc .readTerm s = stepOp c sc .readTerm (reset { s with lastRead := .none }) := by
             simp only [stepOp]
             rw [show c.src.length + 2 = (c.src.length + 1) + 1 from rfl, scanLoop_reset_eq c sc _ _ s hpast hdr.2]
           rw [hstep]
-          exact ⟨_, by rw [r1]; simp, r2⟩
+          exact ⟨_, by rw [r1]; simp, r2, by rw [r1]; exact r3⟩
 
 /-! ### conjunctions and programs -/
 
@@ -446,7 +490,7 @@ theorem seqConj_sim {c : Cfg} (hv : c.Valid) (sc : Scanner σ) (ops : List Op) :
   | nil => intro s cu h; exact ⟨cu, rfl, h⟩
   | cons o os ih =>
     intro s cu h
-    obtain ⟨cu1, hck, hs1⟩ := stepOp_sim hv sc h o
+    obtain ⟨cu1, hck, hs1, _⟩ := stepOp_sim hv sc h o
     simp only [seqConj, andThen]
     by_cases he : (stepOp c sc o s).1.isErr = true
     · rw [if_pos he]
@@ -666,5 +710,87 @@ theorem peekByte_eos {c : Cfg} (hv : c.Valid) {s : Stream} {cu : Cursor} (h : Si
           · rw [hval, peekByteBody_eos h0, if_neg ht, if_neg hlt]
             show (if s.endOfStream = EOS.past then EOS.past else EOS.at) = EOS.at
             rw [if_neg hp]
+
+/-! ### small facts about the specification used by the property theorems -/
+
+theorem pastAction_idx (a : EofAction) (cu : Cursor) : (pastAction a cu).2.idx = cu.idx := by
+  unfold pastAction; split
+  · cases a <;> rfl
+  · rfl
+
+theorem cursorReadRune_peek_idx (c : Cfg) (cu : Cursor) : (cursorReadRune c cu).2.2.idx = cu.idx := by
+  unfold cursorReadRune
+  generalize hpa : pastAction c.action cu = pa
+  obtain ⟨e, cu1⟩ := pa
+  have := pastAction_idx c.action cu
+  rw [hpa] at this
+  cases e with
+  | some e => exact this
+  | none => simp only [cursorRuneBody_peek]; exact this
+
+theorem cursorReadByte_peek_idx (c : Cfg) (cu : Cursor) : (cursorReadByte c cu).2.2.idx = cu.idx := by
+  unfold cursorReadByte
+  generalize hpa : pastAction c.action cu = pa
+  obtain ⟨e, cu1⟩ := pa
+  have := pastAction_idx c.action cu
+  rw [hpa] at this
+  cases e with
+  | some e => exact this
+  | none => simp only [cursorByteBody_peek]; exact this
+
+/-- the specification marks end_of_file as delivered whenever a consuming read returns it -/
+theorem spec_readChar_eof (c : SCfg) (cu cu' : Cursor) (h : Spec.readChar c true cu = (.eof, cu')) :
+    cu'.delivered = true := by
+  unfold Spec.readChar at h
+  split at h
+  · simp at h
+  · split at h
+    · simp at h
+    · split at h
+      · simp only at h; split at h <;> simp at h
+      · simp [deliverEOF] at h; rw [← h]
+
+theorem spec_readByte_eof (c : SCfg) (cu cu' : Cursor) (h : Spec.readByte c true cu = (.eofByte, cu')) :
+    cu'.delivered = true := by
+  unfold Spec.readByte at h
+  split at h
+  · simp at h
+  · split at h
+    · simp at h
+    · split at h
+      · simp at h
+      · simp [deliverEOF] at h; rw [← h]
+
+theorem spec_readTerm_eof (c : SCfg) (sc : Scanner σ) (cu cu' : Cursor) (h : Spec.readTerm c sc cu = (.eof, cu')) :
+    cu'.delivered = true := by
+  unfold Spec.readTerm at h
+  split at h
+  · simp at h
+  · split at h
+    · simp at h
+    · split at h <;> simp at h
+      rw [← h]
+
+/-- the result a passing `check` accepted, for the operations whose result the specification fixes -/
+theorem check_exact_getChar (c : SCfg) (sc : Scanner σ) (cu cu' : Cursor) (r : Result)
+    (h : Spec.check c sc .getChar cu r = some cu') : Spec.readChar c true cu = (r, cu') := by
+  simp only [Spec.check] at h
+  split at h
+  · rename_i heq; simp at h; rw [heq, ← h]
+  · simp at h
+
+theorem check_exact_getByte (c : SCfg) (sc : Scanner σ) (cu cu' : Cursor) (r : Result)
+    (h : Spec.check c sc .getByte cu r = some cu') : Spec.readByte c true cu = (r, cu') := by
+  simp only [Spec.check] at h
+  split at h
+  · rename_i heq; simp at h; rw [heq, ← h]
+  · simp at h
+
+theorem check_exact_readTerm (c : SCfg) (sc : Scanner σ) (cu cu' : Cursor) (r : Result)
+    (h : Spec.check c sc .readTerm cu r = some cu') : Spec.readTerm c sc cu = (r, cu') := by
+  simp only [Spec.check] at h
+  split at h
+  · rename_i heq; simp at h; rw [heq, ← h]
+  · simp at h
 
 end PrologVerif.Stream
